@@ -410,7 +410,12 @@ def _construct_dsdl_definitions_from_files(
                 DSDL_FILE_SUFFIX,
                 fp,
             )
-        output.add(_dsdl_definition.DSDLDefinition.from_first_in(fp, list(valid_roots)))
+        try:
+            output.add(_dsdl_definition.DSDLDefinition.from_first_in(fp, list(valid_roots)))
+        except (ValueError, RuntimeError, OSError) as ex:  # E.g., a link that leads out of the root or loops.
+            raise _dsdl_definition.FileNameFormatError(
+                "Cannot locate the definition under its root namespace directory: %s" % ex, path=fp
+            ) from ex
 
     return dsdl_file_sort(output)
 
